@@ -789,6 +789,7 @@ func cmdExplore(args []string) int {
 	workers := 0
 	sample := 0
 	maxPaths, timeoutS := 0, 0
+	monitor := false
 	for _, a := range args[1:] {
 		kv := strings.SplitN(a, "=", 2)
 		if len(kv) != 2 {
@@ -804,6 +805,8 @@ func cmdExplore(args []string) int {
 			workers = n
 		case "sample":
 			sample = n
+		case "monitor":
+			monitor = n == 1
 		case "solver":
 			interp.SolverKind = kv[1]
 		case "querylog":
@@ -818,7 +821,7 @@ func cmdExplore(args []string) int {
 		return 3
 	}
 	out := &checkOutput{funcs: map[string]int{}}
-	h := HarnessRun{Harness: args[0], Quick: params, SampleEvery: sample, MaxPaths: maxPaths, TimeoutS: timeoutS}
+	h := HarnessRun{Harness: args[0], Quick: params, SampleEvery: sample, MaxPaths: maxPaths, TimeoutS: timeoutS, Monitor: monitor}
 	if err := runHarness(p, h, "quick", workers, out); err != nil {
 		fmt.Fprintln(os.Stderr, err)
 		return 3
